@@ -1049,12 +1049,19 @@ class Engine:
         if name in ("map", "inspect", "map_err", "inspect_err") and tag is not None:
             out_tag = tag
         alts = []
+        is_then = name in ("then", "then_some") and path.startswith("<bool>") or path in ("core::bool::<impl bool>::then", "core::bool::<impl bool>::then_some")
+        if is_then:
+            # `cond.then(f)`: None without calling f, or Some(f()) - the result's variant says which
+            recv_c = st["consts"].get(recv) if recv is not None else None
+            called = None if recv_c is None else bool(recv_c)
         if called in (None, False):
-            alts.append(mk(tag=out_tag))
+            alts.append(mk(tag="None" if is_then else out_tag))
         if called in (None, True):
+            if is_then and name == "then_some":
+                alts.append(mk(tag="Some"))
             for c in callables:
                 for e in self.callable_effects(c, "ret"):
-                    alts.append(mk(e.exit, out_tag, e.vec, e.pcalls, e.notes, (), e.origin))
+                    alts.append(mk(e.exit, "Some" if is_then else out_tag, e.vec, e.pcalls, e.notes, (), e.origin))
                 for e in self.callable_effects(c, "unw"):
                     alts.append(mk(e.exit, None, e.vec, e.pcalls, e.notes, (), e.origin))
         self._apply(dedup(alts), "HO", {"callee": path, "receiver_tag": tag}, t, bb, st, fork, emit, nexts, dl)
